@@ -5,6 +5,8 @@ package hx
 
 import (
 	"context"
+	"crypto/hmac"
+	"crypto/sha1"
 	"hash"
 	"time"
 
@@ -182,3 +184,15 @@ func (h *integHash) Sum(b []byte) []byte         { return append(b, ref.IntegSum
 func (h *integHash) Reset()                      { h.buf = h.buf[:0] }
 func (h *integHash) Size() int                   { return ref.IntegLen(h.integ) }
 func (h *integHash) BlockSize() int              { return 64 }
+
+// TruncHMACSHA1 is HMAC-SHA1-96 built from the standard library's stateful
+// hmac, the way the library builds its integrity hash.
+func TruncHMACSHA1(k1 []byte) hash.Hash { return truncHash{hmac.New(sha1.New, k1), 12} }
+
+type truncHash struct {
+	hash.Hash
+	n int
+}
+
+func (t truncHash) Sum(b []byte) []byte { return t.Hash.Sum(b)[:len(b)+t.n] }
+func (t truncHash) Size() int           { return t.n }
